@@ -955,6 +955,9 @@ func (c *Ctx) c6Mesh(nv int, special int) c6Mesh {
 			if c.Rng.Intn(3) == 0 {
 				ni = nv
 			}
+			if nv > 1000 && nv != 70000 {
+				ni = 1 + c.Rng.Intn(6) // many vertices, few indices: the index width must follow the vertex count
+			}
 		default:
 			ni = c.Rng.Intn(6)
 		}
@@ -1308,6 +1311,9 @@ func (c *Ctx) c6Scene(level int, big int) *c6Scene {
 				}
 				c.Note("model.gpu-instances")
 			}
+		}
+		if big > 0 && i == 0 {
+			md.mesh = 0 // the large mesh is always used
 		}
 		s.models = append(s.models, md)
 	}
